@@ -481,7 +481,23 @@ def split_winding(rep, prog):
             cond, arms = s["c"][0], (s["c"][1], s["c"][2])
         else:
             continue
-        br = [[[_letter(render(a)) for a in call_args(x)] for x in walk(b) if is_call(x) and x.get("callee") == "cell::create_face"] for b in arms]
+        def _arg_letter(a):
+            # the node an argument designates: through const locals that merely name another id (an inlined helper's value parameter)
+            a0 = strip(a)
+            if a0.get("k") == "DeclRefExpr" and (a0.get("ref") or {}).get("dk") in ("Var", "ParmVar"):
+                from .c11 import _alias_root
+                root = _alias_root(fn, a0["ref"]["did"])
+                if root != a0["ref"]["did"]:
+                    for v_ in walk(fn["body"]):
+                        if v_.get("k") == "Var" and v_.get("did") == root:
+                            return _letter(v_.get("name") or "")
+                    for p_ in fn.get("params", []):
+                        if p_.get("did") == root:
+                            return _letter(p_.get("name") or "")
+            return _letter(render(a))
+        br = [[[_arg_letter(a) for a in call_args(x)] for x in walk(b) if is_call(x) and x.get("callee") == "cell::create_face"] for b in arms]
+        if any(l_ is None for b_ in br for f_ in b_ for l_ in f_):
+            raise AnalysisBroken("split_edge: a create_face argument at line %s does not name one of the nodes of the split (n_<letter>); split-winding is not decided" % s.get("l"))
         if not br[0] or not br[1] or len(br[0]) != len(br[1]):
             continue
         from ..model import stable_locals
